@@ -23,8 +23,10 @@ Verdicts on the implementation's answer `<result> ; <raw state> V <flag> [R <fla
                        (same ids, same end points), n its only father-less node
   rooted_cache         the reported rootedness flag of a DAG is 1 but there is not exactly one father-less node
   keeps_object         `setFather` / `addSon` with an edge object succeeded but the object is not the one of
-                       the new link (`getEdgeLinking(father, son)`), or the observer's maps are no longer inverse of
-                       each other / name dead ids (`obs:<clause>`, C14), or `rootAt` changed an association
+                       the new link (`getEdgeLinking(father, son)`); `addSon` with a free object, two known nodes and no
+                       relation yet between them (`TW.addSonReady`) did not succeed; `setFather` with an object attached
+                       to another branch (`TW.setFatherForeign`) was not refused or changed something; the observer's maps
+                       are no longer inverse of each other / name dead ids (`obs:<clause>`, C14); `rootAt` changed an association
 -/
 namespace Bpp.Drive.C15
 open Bpp Bpp.Proto Bpp.Graph Bpp.Drive.C14
@@ -393,6 +395,9 @@ def setFatherW (st : St) (impl : Option (List String)) (a f : Obj) (x : Option O
   let extra : List String → TW → Option String := fun res wi =>
     match x, wi.w.getObs 0 with
     | some x', some o =>
+      -- an object attached to another branch is refused and nothing changes
+      if (match prev with | some p => p.setFatherForeign 0 a x' && (res != ["exc:bpp"] || wi.w != p.w || wi.valid != p.valid) | none => false)
+      then some "keeps_object" else
       if res == ["ok"] && World.edgeLinking wi.w o f a != some (some x') then some "keeps_object" else
       (match prev with
        | some p =>
@@ -422,7 +427,17 @@ def stepW (st : St) (op : List String) (impl : Option (List String)) : St × Str
   | ["o.link", a, b, x] => mutr (tw.link 0 (nat a) (nat b) (optObj x)) (keeps (nat a) (nat b) (optObj x))
   | ["o.unlink", a, b] => mutr (tw.unlink 0 (nat a) (nat b)) none2
   | ["o.deleteNode", a] => mutr (tw.deleteNode 0 (nat a)) none2
-  | ["o.addSon", a, s, x] => mutr (tw.addSon 0 (nat a) (nat s) (optObj x)) (keeps (nat a) (nat s) (optObj x))
+  | ["o.addSon", a, s, x] =>
+    let prev := st.prevW
+    -- with an edge object and everything it needs (judged on the implementation's previous report) the call must go through
+    let extra : List String → TW → Option String := fun res wi =>
+      match keeps (nat a) (nat s) (optObj x) res wi with
+      | some c => some c
+      | none =>
+        match prev, optObj x with
+        | some p, some x' => if p.addSonReady 0 (nat a) (nat s) x' && res != ["ok"] then some "keeps_object" else none
+        | _, _ => none
+    mutr (tw.addSon 0 (nat a) (nat s) (optObj x)) extra
   | ["o.setFatherCur", a, f] =>
     -- with the object of the branch to the current father (none: without object)
     let x : Option Obj := match tw.w.getObs 0 with
